@@ -300,6 +300,20 @@ def search(ctx, hints):
                 break
     if not fails:
         fails += [f for f in deep_sweep(False)[0] if classify(f, known) is None][:1]
+    if not fails:
+        # the accessors on trees that parse() returns for deeply nested input (an accessor that recurses with more frames
+        # per level than the parser does escapes as RecursionError on a tree the parser accepted)
+        for d in (300, 450):
+            for text in ('(' * d + 'select 1' + ')' * d + ' union select 2', 'select ' + '(' * d + '1' + ')' * d):
+                tried += 1
+                f = oracle(text, {}, accessors=True)
+                if f and classify(f, known) is None:
+                    f['input'] = [ord(c) for c in text]
+                    f['deep'] = {'construct': 'paren', 'depth': d}
+                    fails.append(f)
+                    break
+            if fails:
+                break
     while time.time() - t0 < ctx.n(60, 600) and not fails:
         s, kind, o = gen_case(ctx.rng)
         tried += 1
@@ -310,7 +324,7 @@ def search(ctx, hints):
 
 
 def shrink(f):
-    if not f or 'input' not in f:
+    if not f or 'input' not in f or f.get('deep'):
         return f
     opts = f.get('options') or None
     cls = f.get('class')
